@@ -83,7 +83,7 @@ package runner
 //@   ensures [output_untouched] *o == old(*o)
 
 //@ func (*StepCompile).Run
-//@   property C10
+//@   property C10 C02 C03 C04 C05 C13 C14 C15 C06 C07 C11
 //@   requires o != nil && i != nil && s.compiler != nil
 //@   modifies *o
 //@   ensures [compiles_once] tlen() == old(tlen()) + 1 && evIs(old(tlen()), "internal/cmd/runner:compiler.Compile") && result == evErr(old(tlen()))
@@ -98,7 +98,7 @@ package runner
 // cleaned -o path; it succeeds iff both succeeded. (os.WriteFile is the only file-mutating call in the repository:
 // structural obligation of C10.)
 //@ func (*StepCodeGenerator).Run
-//@   property C10
+//@   property C10 C02 C03 C04 C05 C13 C14 C15
 //@   requires [wired] s.printer != nil && s.builder != nil && o != nil
 //@   ensures [builds_exactly_once] exists b int :: old(tlen()) <= b && b < tlen() && evIs(b, "internal/cmd/runner:codeBuilder.Build")
 //@        && (forall k int :: old(tlen()) <= k && k < tlen() && k != b ==> !evIs(k, "internal/cmd/runner:codeBuilder.Build"))
@@ -113,7 +113,7 @@ package runner
 
 // C09 / C10: the files of one pattern are returned cleaned and in lexical order of the cleaned paths.
 //@ func (*StepReadConfig).findFiles pure
-//@   property C09 C10 C08
+//@   property C09 C10 C08 C02 C03 C04 C05 C06 C07 C11 C13 C14 C15 C16 C18
 //@   ensures [sorted_by_cleaned_path] forall a int, b int :: 0 <= a && a < b && b < len(result.0) ==> result.0[a] <= result.0[b]
 //@   ensures [paths_are_cleaned] forall k int :: 0 <= k && k < len(result.0) ==> filepath.Clean(result.0[k]) == result.0[k]
 //@   ensures [glob_error_returns_nothing] result.1 != nil ==> len(result.0) == 0
@@ -177,21 +177,39 @@ package runner
 //@ axiom [mergePatterns_step] forall x input.Input, s *StepReadConfig, k int :: s != nil && 0 <= k && k < len(s.patterns) ==>
 //@        mergePatterns(x, s, k + 1) == mergeFiles(mergePatterns(x, s, k), s.findFiles(s.patterns[k]).0, len(s.findFiles(s.patterns[k]).0))
 
+//@ spec someErr(errs []error) bool = exists j int :: 0 <= j && j < len(errs) && errs[j] != nil
 //@ func (*StepReadConfig).Run
-//@   property C12 C09 C04
+//@   property C12 C09 C04 C02 C03 C05 C06 C07 C10 C11 C13 C14 C15 C16 C18
 //@   reports_all
 //@   requires [wired] s.printer != nil && i != nil
 //@   modifies *i
 //@   ensures [no_patterns_nothing_merged] len(s.patterns) == 0 ==> *i == old(*i)
 //@   ensures [merged_in_flag_then_path_order] *i == mergePatterns(old(*i), s, len(s.patterns))
+// C10: the step fails when there is no pattern, when a pattern is malformed, when any matched file cannot be read or
+// parsed (even if other files are fine), and when no file at all could be processed.
+//@   ensures [no_patterns_is_an_error C10] len(s.patterns) == 0 ==> err != nil
+//@   ensures [malformed_pattern_is_an_error C10] (exists p int :: 0 <= p && p < len(s.patterns) && s.findFiles(s.patterns[p]).1 != nil) ==> err != nil
+//@   ensures [unreadable_or_unparsable_file_is_an_error C10] (exists p int, k int :: 0 <= p && p < len(s.patterns) && 0 <= k && k < len(s.findFiles(s.patterns[p]).0)
+//@        && !fileOK(s.findFiles(s.patterns[p]).0[k])) ==> err != nil
+//@   ensures [nothing_processed_is_an_error C10] (forall p int, k int :: 0 <= p && p < len(s.patterns) && 0 <= k && k < len(s.findFiles(s.patterns[p]).0)
+//@        ==> !fileOK(s.findFiles(s.patterns[p]).0[k])) ==> err != nil
 //@   loop 1
 //@     invariant [processed_nonnil] processed != nil
 //@     invariant [folded_patterns] *i == mergePatterns(old(*i), s, $i)
+//@     invariant [failures_recorded] (exists p int :: 0 <= p && p < $i && (s.findFiles(s.patterns[p]).1 != nil
+//@        || (exists k int :: 0 <= k && k < len(s.findFiles(s.patterns[p]).0) && !fileOK(s.findFiles(s.patterns[p]).0[k])))) ==> someErr(errs)
+//@     invariant [found_only_if_processed] found ==> (exists p int, k int :: 0 <= p && p < $i && 0 <= k && k < len(s.findFiles(s.patterns[p]).0) && fileOK(s.findFiles(s.patterns[p]).0[k]))
 //@   loop 2
 //@     invariant [processed_nonnil] processed != nil
 //@     invariant [folded_files] *i == mergeFiles(mergePatterns(old(*i), s, $i1), files, $i)
+//@     invariant [failures_recorded] ((exists p int :: 0 <= p && p < $i1 && (s.findFiles(s.patterns[p]).1 != nil
+//@        || (exists k int :: 0 <= k && k < len(s.findFiles(s.patterns[p]).0) && !fileOK(s.findFiles(s.patterns[p]).0[k]))))
+//@        || s.findFiles(s.patterns[$i1]).1 != nil || (exists k int :: 0 <= k && k < $i && !fileOK(files[k]))) ==> someErr(errs)
+//@     invariant [found_only_if_processed] found ==> ((exists p int, k int :: 0 <= p && p < $i1 && 0 <= k && k < len(s.findFiles(s.patterns[p]).0) && fileOK(s.findFiles(s.patterns[p]).0[k]))
+//@        || (exists k int :: 0 <= k && k < $i && fileOK(files[k])))
 //@   loop 3
 //@     invariant [processed_nonnil] processed != nil
+//@     invariant [errors_kept] someErr(entry(errs)) ==> someErr(errs)
 // ---- constructors
 //@ func NewPrinter
 //@   property C10 C12
@@ -212,7 +230,7 @@ package runner
 //@   property C10 C16
 //@   ensures [fields_as_given] result != nil && result.validator == v && result.ruleName == ruleName
 //@ func NewStepReadConfig
-//@   property C09 C10
+//@   property C09 C10 C02 C03 C04 C05 C06 C07 C11 C13 C14 C15 C16 C18
 //@   ensures [fields_as_given] result != nil && result.printer == printer && result.patterns == patterns
 //@ func NewStepVerboseSwitchable
 //@   property C10 C16
